@@ -408,18 +408,22 @@ class CompiledTemplateManager(object):
             table_group.key
         )
         log.debug('Getting compiled template of key: {}'.format(key_of_compiled_template))
-        compiled_template = self.cache.get(key_of_compiled_template, None)
+        compiled_template, compiled_with = self.cache.get(key_of_compiled_template, (None, None))
 
-        if compiled_template is None:
+        # The key of a table group does not tell whether table entries defined by
+        # BUFR messages (data category 11) have been added or changed since the
+        # template was compiled. The table groups are re-created when that happens,
+        # so a compiled template is only good for the very table group it was compiled with.
+        if compiled_template is None or compiled_with is not table_group:
             log.debug('Cached version not available. Compiling now ...')
             compiled_template = self.template_compiler.process(template, table_group)
 
             if self.cache_max > 0:
                 # TODO: Better cache invalidate algorithm
-                if len(self.cache) >= self.cache_max:
+                if key_of_compiled_template not in self.cache and len(self.cache) >= self.cache_max:
                     self.cache.popitem()
 
-                self.cache[key_of_compiled_template] = compiled_template
+                self.cache[key_of_compiled_template] = (compiled_template, table_group)
 
         return compiled_template
 
